@@ -24,6 +24,7 @@ mod c17_real;
 mod c06;
 mod c15;
 mod c11p;
+mod c09n;
 mod rng;
 
 use std::collections::HashMap;
@@ -87,6 +88,7 @@ fn main() {
         "malformed" => c15::main(&args),
         "malformed-worker" => c15::worker_main(&args),
         "poseidonctl" => c11p::main(&args),
+        "busaudit" => c09n::main(&args),
         _ => {
             eprintln!("unknown subcommand {cmd}");
             std::process::exit(2);
